@@ -165,6 +165,8 @@ def main():
         explored = len(verdicts)
         if time.time() > deadline:
             break
+        if any(v["holds"] is False for v in verdicts[-chunk:]):
+            break  # a failing input is in hand: report it rather than exploring further
     cases = cases[:explored]
 
     bad_holds = [(c, v) for c, v in zip(cases, verdicts) if v["holds"] is False]
